@@ -31,6 +31,8 @@ type onlyW struct{ w *writer }
 
 func (w onlyW) Write(p []byte) (int, error) { return w.w.Write(p) }
 
+type uuid16 [16]byte
+
 type myStr string
 type myBytes []byte
 type aStruct struct{ A string }
@@ -382,6 +384,8 @@ const (
 	sReader      = "Reader"
 	sReadCloser  = "ReadCloser"
 	sSeekReader  = "ReadSeeker, partly read by the caller" // (r7) the payload is what is left in the reader
+	sByteArray   = "[32]byte value"                        // (r8) a checksum passed by value: refused or written, never a panic
+	sNamedArray  = "named [16]byte value"
 	sNil         = "nil"
 	sNilStrPtr   = "(*string)(nil)"
 	sNilBytesPtr = "(*[]byte)(nil)"
@@ -391,7 +395,7 @@ const (
 )
 
 var srcKinds = []string{sWrToCloser, sString, sStringPtr, sNamedStr, sBytes, sBytesPtr, sNamedBytes, sError, sStringer, sTxtM, sBothTxt, sBinM, sWriterTo,
-	sReader, sReadCloser, sSeekReader, sNil, sNilStrPtr, sNilBytesPtr, sInt, sIntPtr, sChanless}
+	sReader, sReadCloser, sSeekReader, sByteArray, sNamedArray, sNil, sNilStrPtr, sNilBytesPtr, sInt, sIntPtr, sChanless}
 
 // verdict of the documentation for a source kind: "exact" (the sink receives exactly the source bytes),
 // "error" (must be refused), "open" (accepted through another documented rule, e.g. written as JSON: not judged here).
@@ -486,6 +490,14 @@ func CheckProduce(c ProduceCase) *kit.Violation {
 			return kit.Failf("harness: %v", err)
 		}
 		src = struct{ io.ReadSeeker }{sr}
+	case sByteArray:
+		var a [32]byte
+		copy(a[:], data)
+		src = a
+	case sNamedArray:
+		var a uuid16
+		copy(a[:], data)
+		src = a
 	case sNil:
 		src = nil
 	case sNilStrPtr:
